@@ -302,6 +302,10 @@ func genTables(t *rapid.T, size string) []ref.SelTable {
 		switch {
 		case size == "large" && i == largeIdx:
 			rows = fw.Range(t, "rowsLarge", 160, 400)
+			if fw.Pct(t, "rowsHuge", 10) {
+				// beyond every size the code may treat specially (1000+ rows, all cores busy)
+				rows = fw.Range(t, "rowsHugeN", 1000, 1500)
+			}
 		case size == "large" && i == large2:
 			rows = fw.Range(t, "rowsLarge2", 160, 220)
 		case size == "medium" && (i == largeIdx || fw.Pct(t, "mediumToo", 60)):
